@@ -691,5 +691,24 @@ func (h *History) step(act int) {
 		h.need(0)
 		q := ref.DecString(h.pos[k])
 		h.book([]ref.Booking{{Credit: src.name, Debit: other.name, Qty: q, Com: k[1]}}, ref.Directive{})
+		// often the emptied account is closed on the very day of the disposal
+		if cfg.Closes && !src.accrual && src.lockUntil <= h.day && rapid.IntRange(0, 2).Draw(t, "closeSameDay") == 0 {
+			empty := true
+			for pk, v := range h.pos {
+				if pk[0] == src.name && v.Sign() != 0 {
+					empty = false
+				}
+			}
+			if empty {
+				h.need(2)
+				src.open = false
+				for pk := range h.pos {
+					if pk[0] == src.name {
+						delete(h.pos, pk)
+					}
+				}
+				h.ds = append(h.ds, ref.Directive{Kind: ref.KClose, Date: h.day, Account: src.name})
+			}
+		}
 	}
 }
